@@ -162,8 +162,15 @@ func vpBuildFiltersRec(s *bloomEntrySets, rate float64) BloomFilters {
 	return BloomFilters{}
 }
 
-// filter sections: 3..4 bytes of arbitrary content; parsing a section back always succeeds
+// filter sections: 3..4 bytes of arbitrary content, or — for a whole run, chosen once
+// (vpNoFilterSections) — none at all: the format's "no filter section" (size 0), what a writer that
+// stores no filters produces. Parsing a section back always succeeds.
+var vpNoFilterSections bool
+
 func vpEncodeSectionVar(f *BloomFilters) ([]byte, error) {
+	if vpNoFilterSections {
+		return nil, nil
+	}
 	if nondetBool() {
 		return []byte{nondetU8(), 2, 3}, nil
 	}
@@ -332,7 +339,7 @@ func (iw *vpImgWorld) checkFileDescribesItself(id int) {
 	sec := md.BlockFilterRegionOffset
 	for i := range md.DataBlocks {
 		blk := &md.DataBlocks[i]
-		vpAssert(blk.BloomFilterOffset == sec && blk.BloomFilterSize >= 3, "C17: a block's filter section is not where the writer put it inside the region")
+		vpAssert(blk.BloomFilterSize >= 0 && (blk.BloomFilterSize == 0 || blk.BloomFilterOffset == sec), "C17: a block's filter section is not where the writer put it inside the region")
 		sec += blk.BloomFilterSize
 	}
 	vpAssert(md.BlockFilterRegionSize == sec-md.BlockFilterRegionOffset, "C17: the block filter region size is not the sum of its sections")
